@@ -29,6 +29,8 @@ def run_unit(spec, tier):
         r = units.run_verus(spec['unit'])
     elif kind == 'bx':
         r = units.run_bx(spec['name'], spec['strategy'], spec.get('bounds') or BX_BOUNDS[tier], tier)
+    elif kind == 'bxh':
+        r = units.run_bx_history(spec['name'], 8 if tier == 'thorough' else 6)
     elif kind == 'kani':
         import kani_units
         r = kani_units.run_kani(spec, tier)
@@ -60,6 +62,8 @@ _BX_CLAUSES = {
 
 def relevant(pid, spec, r, f):
     """is failure f of unit r a failure of property pid?"""
+    if f.get('props') is not None:
+        return pid in f['props']
     if r.engine.startswith('bx'):
         want = _BX_CLAUSES.get(pid, ())
         return any(any(w in c for w in want) for c in f.get('clauses', [])) or \
@@ -117,6 +121,11 @@ def make_replay(pid, spec, r, f, tier):
     os.makedirs(d, exist_ok=True)
     stamp = time.strftime('%Y%m%d-%H%M%S')
     base = os.path.join(d, '%s-%s-%s-%d' % (pid, r.name, stamp, len(os.listdir(d))))
+    if f.get('history') is not None:
+        path = base + '.json'
+        json.dump({'kind': 'bx-builder', 'property': pid, 'history': f['history'], 'clauses': f['clauses'], 'unit': r.name,
+                   'how': './check --replay <this file>: re-runs the request sequence against /repo through the public API'}, open(path, 'w'), indent=1)
+        return path, True
     if r.engine.startswith('bx'):
         path = base + '.json'
         json.dump({'kind': 'bx-case', 'property': pid, 'case': f['case'], 'clauses': f['clauses'],
@@ -334,8 +343,8 @@ PROPERTIES['C16'] = {
 
 INCRATE = {'kind': 'kani', 'crate': 'incrate', 'repo_crates': ['truc', 'truc_runtime'], 'flags': [],
            'env': {'VERIF_KANI_DIR': os.path.join(VERIF, 'kani', 'incrate')}, 'timeout': 2400}
-K_DEF = dict(INCRATE, name='kani-definition', harnesses=['definition::verif_kani'], min_harnesses=4,
-             bounded='BOUNDED: definitions of <= 3 data in one variant (symbolic offsets <= 2^40, sizes <= 2^20, power-of-two alignments <= 16, third datum optionally added-and-removed-before-close); remove_data on lists <= 4 with <= 3 removals',
+K_DEF = dict(INCRATE, name='kani-definition', harnesses=['definition::verif_kani'], min_harnesses=5,
+             bounded='BOUNDED: definitions of <= 3 data in two variants (symbolic offsets <= 2^40, sizes <= 2^20, power-of-two alignments <= 16, third datum optionally added-and-removed-before-close, second variant a symbolic subset); remove_data on lists <= 4 with <= 3 removals',
              functions=['truc/src/record/definition/mod.rs RecordDefinition::max_size', 'truc/src/record/definition/mod.rs RecordDefinition::max_type_align',
                         'truc/src/record/definition/builder/native/variant/mod.rs <Vec<DatumId> as NativeDataUpdater>::remove_data'])
 K_B5 = dict(INCRATE, name='kani-builder-lookup', harnesses=['generic::verif_kani'], min_harnesses=4,
@@ -375,6 +384,7 @@ PROPERTIES['C03']['explanation'] = ('First sentence = frame clause of the strate
     'simple) + close_record_variant_with leaves earlier variants untouched and add_datum only appends (Verus, unit builder). Second sentence: corpus harnesses '
     'assert equal size_of / align_of of all CappedRecordK<CAP> for CAP = MAX_SIZE, MAX_SIZE+1, 2*MAX_SIZE+3.')
 PROPERTIES['C03']['unchecked'] = ['"a repr(align(N)) struct of one [u8; CAP] has size roundup(CAP, N)" is Rust\'s layout rule: evaluated by the compiler for the corpus instances, assumed in general']
-PROPERTIES['C12']['units'] = lambda tier: [V_BUILDER, K_B5, V_LAYOUT] + bx_units(tier) + [K_DEF]
+BXH = {'kind': 'bxh', 'name': 'builder-history'}
+PROPERTIES['C12']['units'] = lambda tier: [V_BUILDER, K_B5, BXH, V_LAYOUT] + bx_units(tier) + [K_DEF]
 PROPERTIES['C12']['unchecked'] = ['native builder operations are one-line delegations to the generic builder (not extracted)',
                                   'name lookups are checked by Kani on a bounded family of states only (unit kani-builder-lookup); Verus uses their contract as an assumption']
